@@ -45,8 +45,25 @@ RelatedBy(fa, fb, Map(_), slack) ==
         LET b == fb.t.data[Off(fb.t.shape, idxs[i])]
             a == Get(fa.t, Map(idxs[i]))
         IN  ElemClose(fa, a, b, FAdd(FAdd(AbsF(fa, a), AbsF(fb, b)), floor), slack)
+\* fine mode: the encoder also supplies res = B - A o Map computed in double precision; it must be consistent with
+\* the (coarse) Flt difference and small: |res| <= 2^fine (|a| + |b| + floor)
+FineBy(fa, fb, res, Map(_), slack, fine) ==
+  LET floor == IF fa.name \in {"cacg_eigenvalues", "bingham_eigenvalues", "watson_concentration", "vmf_concentration"}
+               THEN FZero ELSE FMul(FPow2(-12), FMaxAbs(fa))
+      idxs == AllIdx(fb.t.shape)
+  IN  \A i \in 1..Len(idxs) :
+        LET o == Off(fb.t.shape, idxs[i])
+            b == fb.t.data[o]
+            a == Get(fa.t, Map(idxs[i]))
+            rr == res.data[o]
+            sc == FAdd(FAdd(AbsF(fa, a), AbsF(fb, b)), floor)
+            diff == IF fa.cplx THEN ZSub(b, a) ELSE FSub(b, a)
+        IN  /\ ElemOK(fa, rr)
+            /\ ElemClose(fa, rr, diff, sc, slack)
+            /\ FLe(AbsF(fa, rr), FMul(FPow2(fine), sc))
 \* same model
 SameField(fa, fb, slack) == fa.t.shape = fb.t.shape /\ RelatedBy(fa, fb, LAMBDA ix : ix, slack)
+SameFine(fa, fb, res, slack, fine) == fa.t.shape = fb.t.shape /\ FineBy(fa, fb, res, LAMBDA ix : ix, slack, fine)
 \* B = A with the class axis permuted: B[.., k, ..] = A[.., pi[k], ..]   (pi 0-based values, 1-based domain)
 PermField(fa, fb, cax, pi, slack) ==
   /\ fa.t.shape = fb.t.shape
@@ -54,6 +71,12 @@ PermField(fa, fb, cax, pi, slack) ==
      THEN RelatedBy(fa, fb, LAMBDA ix : ix, slack)
      ELSE LET p == Len(fa.t.shape) + 1 + cax
           IN  RelatedBy(fa, fb, LAMBDA ix : [ix EXCEPT ![p] = pi[ix[p] + 1]], slack)
+PermFine(fa, fb, res, cax, pi, slack, fine) ==
+  /\ fa.t.shape = fb.t.shape
+  /\ IF cax = 0 \/ fa.t.shape[Len(fa.t.shape) + 1 + cax] = 1
+     THEN FineBy(fa, fb, res, LAMBDA ix : ix, slack, fine)
+     ELSE LET p == Len(fa.t.shape) + 1 + cax
+          IN  FineBy(fa, fb, res, LAMBDA ix : [ix EXCEPT ![p] = pi[ix[p] + 1]], slack, fine)
 \* B = A at leading index lead (B lacks the leading axes)
 SliceField(fa, fb, lead, slack) ==
   /\ Len(fa.t.shape) = Len(fb.t.shape) + Len(lead)
